@@ -300,30 +300,26 @@ def _keep_iff_no_match(loop, inner, call, args, f: Func) -> Tuple[bool, str]:
         return False, f"the scan `{rng}` does not range over the spans kept so far"
     if isinstance(inner.iter, ast.Call) and src(inner.iter.func) == "range" and len(inner.iter.args) != 1:
         return False, f"the scan `{rng}` skips some of the kept spans"
-    # the match sets a flag to False and breaks
+    # canonical form (normalisation N12 turns the keep-flag idiom into it): the match breaks out of the scan, the appends are the
+    # scan's else clause
     iff = getattr(call, "_parent", None)
     if not (isinstance(iff, ast.If) and iff.test is call):
         return False, "the relation result is not the test of the match branch"
-    flag = None
-    for st in iff.body:
-        if isinstance(st, ast.Assign) and len(st.targets) == 1 and isinstance(st.targets[0], ast.Name) \
-                and const_value(st.value) is False:
-            flag = st.targets[0].id
-    if flag is None:
-        return False, "the match branch does not clear a keep-flag"
-    # flag set True before the inner loop in the outer body; appends under `if flag` after the inner loop
+    if not (iff.body and isinstance(iff.body[-1], ast.Break)) or iff.orelse:
+        return False, "a match does not end the scan with a break (keep-flag idiom / for-else not recognised)"
+    if iff not in inner.body:
+        return False, "the match test is not a direct statement of the scan loop"
+    if any(isinstance(x, (ast.Break, ast.Continue, ast.Return)) for st in inner.body if st is not iff for x in ast.walk(st)):
+        return False, "the scan can end or skip for another reason than a match"
     body = loop.body
-    try:
-        pos = body.index(inner)
-    except ValueError:
+    if inner not in body:
         return False, "scan loop is not a direct statement of the span loop"
-    init = any(isinstance(st, ast.Assign) and isinstance(st.targets[0], ast.Name) and st.targets[0].id == flag
-               and const_value(st.value) is True for st in body[:pos])
-    if not init:
-        return False, "the keep-flag is not set True before every scan"
-    keep = [st for st in body[pos + 1:] if isinstance(st, ast.If) and isinstance(st.test, ast.Name) and st.test.id == flag]
-    if len(keep) != 1 or keep[0].orelse:
-        return False, "no `if <flag>:` block after the scan"
+    if not inner.orelse:
+        return False, "the kept span is not appended in the no-match (else) clause of the scan"
+
+    class _K:
+        body = inner.orelse
+    keep = [_K]
     apps = {}
     for st in keep[0].body:
         if isinstance(st, ast.Expr) and isinstance(st.value, ast.Call) and isinstance(st.value.func, ast.Attribute) \
